@@ -2,11 +2,15 @@
   C12 — assignment has value semantics: stored values are independent copies.
   [A]: `deepcopy` never changes an existing object (frame), scalars are returned as they are, a
   copied container lives at a FRESH address (≥ the old heap size), and all four assignment forms
-  store the result of `deepcopy`.  Pending [B]: `deepcopy_iso` (the copy's aliasing-aware
-  canonical form equals the original's) and `independence_preserved`.
+  store the result of `deepcopy`.  [B] `copy_reaches_only_new_objects` / `old_values_reach_only_old_objects` /
+  `stored_copy_is_independent` (SqLemmas/CopyLemmas.lean, induction over the copy with its memo): everything
+  reachable from the stored copy was created by the copy; everything reachable from any older value is an old,
+  unchanged object; the two sets of objects are disjoint, so no mutation on one side is visible on the other.
+  Pending: `deepcopy_iso` (the copy's aliasing-aware canonical form equals the original's).
 -/
 import Sq.Machine
 import SqProps.C13
+import SqLemmas.CopyLemmas
 namespace SqProps.C12
 open Sq SqProps.C13
 
@@ -158,5 +162,56 @@ theorem setitem_stores_copy (s : BState) (c k v : Val) :
 theorem short_copies_rhs (n : Name) (sk : ShortK) (vmi : Nat) (v : Val) (k : List Frame) (w : World) (e : PyErr)
     (hc : deepcopy' w.heap v = .error e) : resume (.shortK n sk vmi) v k w = mkRaise e k w := by
   simp [resume, hc]
+
+/-- **[B] the copy reaches only objects created by the copy**: after `copy.deepcopy` (heap `h` → `h'`), every
+    object reachable from the result — through any depth of lists, dicts and tuples — is NEW (address ≥ |h|) -/
+theorem copy_reaches_only_new_objects (h : Heap) (v v' : Val) (h' : Heap) (hk : KeysPlain h)
+    (hc : deepcopy' h v = .ok (v', h')) : ∀ c, Reach h' v' c → c ≥ h.size := by
+  obtain ⟨hv, hobj, _⟩ := deepcopy'_fresh h v v' h' hk hc
+  exact fun c hr => reach_ge hobj hr hv
+
+/-- **[B] older values reach only old, unchanged objects**: any value that existed before the copy (all its
+    addresses < |h|) still reaches, in the new heap, only objects < |h| — each exactly as it was -/
+theorem old_values_reach_only_old_objects (h : Heap) (v v' : Val) (h' : Heap) (hcl : Closed h)
+    (hc : deepcopy' h v = .ok (v', h')) (u : Val) (hu : RefsLt h.size u) :
+    ∀ c, Reach h' u c → c < h.size ∧ h'.get? c = h.get? c := by
+  have hx := deepcopy'_frame h v v' h' hc
+  intro c hr
+  have hlt : c < h.size := by
+    refine reach_lt (n := h.size) ?_ hr hu
+    intro a ha o hg
+    rw [hx.2 a ha] at hg
+    exact hcl a o hg
+  exact ⟨hlt, hx.2 c hlt⟩
+
+/-- **[B] independence of the stored copy**: no object is reachable both from the copy and from an older value.
+    Hence a mutation applied through any other variable, container or host object (it can only touch objects
+    reachable from an older value) is invisible through the stored value, and vice versa. -/
+theorem stored_copy_is_independent (h : Heap) (v v' : Val) (h' : Heap) (hk : KeysPlain h) (hcl : Closed h)
+    (hc : deepcopy' h v = .ok (v', h')) (u : Val) (hu : RefsLt h.size u) :
+    ∀ c, ¬ (Reach h' v' c ∧ Reach h' u c) := by
+  intro c ⟨h1, h2⟩
+  have := copy_reaches_only_new_objects h v v' h' hk hc c h1
+  have := (old_values_reach_only_old_objects h v v' h' hcl hc u hu c h2).1
+  omega
+
+/-- non-vacuity: a heap with a nested list satisfies the hypotheses, and its copy succeeds -/
+example : KeysPlain #[.list [.ref 1], .list [.int 7]] ∧ Closed #[.list [.ref 1], .list [.int 7]] ∧
+    (deepcopy' #[.list [.ref 1], .list [.int 7]] (.ref 0)).isOk = true := by
+  refine ⟨?_, ?_, by decide⟩
+  · intro a kvs hg
+    match a, hg with
+    | 0, hg => cases hg
+    | 1, hg => cases hg
+    | n + 2, hg => simp [Heap.get?] at hg
+  · intro a o hg
+    match a, hg with
+    | 0, hg =>
+      simp [Heap.get?] at hg; subst hg
+      intro v hv; simp at hv; subst hv; exact RefsLt.ref (by decide)
+    | 1, hg =>
+      simp [Heap.get?] at hg; subst hg
+      intro v hv; simp at hv; subst hv; exact RefsLt.int
+    | n + 2, hg => simp [Heap.get?] at hg
 
 end SqProps.C12
